@@ -113,6 +113,15 @@ type baseline struct {
 	Funcs    []string        `json:"functions"`
 }
 
+func (b *baseline) hasFunc(f string) bool {
+	for _, x := range b.Funcs {
+		if x == f {
+			return true
+		}
+	}
+	return false
+}
+
 func loadBaseline(path string) *baseline {
 	b := &baseline{Stems: map[string]bool{}, Families: map[string]bool{}}
 	data, err := os.ReadFile(path)
@@ -324,6 +333,10 @@ func cmdCheck(args []string) {
 		}
 		claimed++
 		inBase := base != nil && (base.Stems[stem(o.Name)] || (base.Families[family(o)] && o.Status == "sat"))
+		if base != nil && !inBase && o.GlobalWrite && o.Status == "sat" && base.hasFunc(o.Func) {
+			// a function that was verified against its frame (no write outside it) now writes package-level state
+			inBase = true
+		}
 		if base == nil {
 			inBase = true // no baseline recorded yet: every failure is reported
 		}
@@ -389,6 +402,9 @@ func cmdCheck(args []string) {
 				ff[family(o)] = true
 			}
 			fn[o.Func] = true
+		}
+		for _, fv := range fvs {
+			fn[fv.name] = true // also functions whose body generates no obligation
 		}
 		for s := range ss {
 			b.List = append(b.List, s)
